@@ -12,9 +12,18 @@ public:
     String(const String &o) : buf(0), len(0) { assign(o.buf, o.len); }
     ~String() { free(buf); }
     String &operator=(const String &o) { if (this != &o) assign(o.buf, o.len); return *this; }
+    String &operator+=(const char *s) { if (s) append(s, strlen(s)); return *this; }
+    String &operator+=(const String &o) { append(o.c_str(), o.len); return *this; }
+    String &operator+=(char c) { append(&c, 1); return *this; }
+    bool concat(const char *s) { if (s) append(s, strlen(s)); return true; }
+    bool concat(const String &o) { append(o.c_str(), o.len); return true; }
+    bool reserve(unsigned int) { return true; }
+    char operator[](unsigned int i) const { return i < len ? buf[i] : 0; }
+    bool operator==(const String &o) const { return len == o.len && (!len || !memcmp(buf, o.buf, len)); }
     const char *c_str() const { return buf ? buf : ""; }
     unsigned int length() const { return (unsigned int)len; }
 private:
+    void append(const char *s, size_t n) { char *nb = (char *)malloc(len + n + 1); if (len) memcpy(nb, buf, len); if (n) memcpy(nb + len, s, n); nb[len + n] = 0; free(buf); buf = nb; len += n; }
     void assign(const char *s, size_t n) { free(buf); buf = (char *)malloc(n + 1); if (n) memcpy(buf, s, n); buf[n] = 0; len = n; }
     char *buf; size_t len;
 };
